@@ -503,6 +503,7 @@ fn bitboard_ops(a: u64, b: u64, x: u64, sq: usize, by: usize) -> CheckResult {
     ensure!(ba.is_empty() == sa.is_empty() && ba.is_nonempty() == !sa.is_empty(), "is_empty of {:#x}", a);
     let it: Vec<u8> = ba.into_iter().map(|c| c.index() as u8).collect();
     ensure!(it == sa.iter().copied().collect::<Vec<u8>>(), "ascending iteration of {:#x}: {:?}", a, it);
+    iterator_protocol(ba, &it, &[0, 1, by % 8, sq, by, 62, 63, 64, 65, 127, 128, 1 << 32, usize::MAX])?;
     ensure!(model(ba.shl(by).as_raw()) == sa.iter().filter_map(|i| if *i as usize + by < 64 { Some(i + by as u8) } else { None }).collect::<BTreeSet<u8>>(), "shl({}) of {:#x}", by, a);
     ensure!(model(ba.shr(by).as_raw()) == sa.iter().filter_map(|i| if *i as usize >= by { Some(i - by as u8) } else { None }).collect::<BTreeSet<u8>>(), "shr({}) of {:#x}", by, a);
     ensure!(model(ba.flipped_rank().as_raw()) == sa.iter().map(|i| i ^ 56).collect::<BTreeSet<u8>>(), "flipped_rank of {:#x}", a);
@@ -527,6 +528,43 @@ fn bitboard_ops(a: u64, b: u64, x: u64, sq: usize, by: usize) -> CheckResult {
     }
     let _ = format!("{:?}", ba); // Debug output is not specified by the property: it only must not panic
     ensure!(unmodel(&sa) == a, "harness model");
+    Ok(())
+}
+
+/// "Ascending iteration" through every way std drives an iterator: whatever Iterator methods the type overrides (nth,
+/// count, last, size_hint, fold, ...) must behave like the same calls on the ascending list of elements.
+fn iterator_protocol(ba: Bitboard, want: &[u8], ks: &[usize]) -> CheckResult {
+    let ix = |c: Coord| c.index() as u8;
+    let n = want.len();
+    let (lo, hi) = ba.into_iter().size_hint();
+    ensure!(lo <= n && hi.map_or(true, |h| h >= n), "size_hint ({}, {:?}) excludes the real length {}", lo, hi, n);
+    ensure!(ba.into_iter().count() == n, "count() of the iterator over {:#x}", ba.as_raw());
+    ensure!(ba.into_iter().last().map(ix) == want.last().copied(), "last() of the iterator over {:#x}", ba.as_raw());
+    ensure!(ba.into_iter().map(ix).min() == want.first().copied() && ba.into_iter().map(ix).max() == want.last().copied(), "min/max over {:#x}", ba.as_raw());
+    ensure!(ba.into_iter().fold(0u64, |a, c| a.wrapping_mul(67).wrapping_add(c.index() as u64 + 1)) == want.iter().fold(0u64, |a, c| a.wrapping_mul(67).wrapping_add(*c as u64 + 1)), "fold over {:#x}", ba.as_raw());
+    for &k in ks {
+        let mut it = ba.into_iter();
+        let mut wt = want.iter().copied();
+        let (g, w) = (it.nth(k).map(ix), wt.nth(k));
+        ensure!(g == w, "nth({}) on the iterator over {:#x} gives {:?}, the ascending list gives {:?}", k, ba.as_raw(), g, w);
+        let (g, w) = (it.nth(k % 3).map(ix), wt.nth(k % 3));
+        ensure!(g == w, "second nth({}) after nth({}) over {:#x} gives {:?} instead of {:?}", k % 3, k, ba.as_raw(), g, w);
+        let (g, w): (Vec<u8>, Vec<u8>) = (it.map(ix).collect(), wt.collect());
+        ensure!(g == w, "elements after nth({}) over {:#x}: {:?} instead of {:?}", k, ba.as_raw(), g, w);
+        let (g, w): (Vec<u8>, Vec<u8>) = (ba.into_iter().skip(k).map(ix).collect(), want.iter().copied().skip(k).collect());
+        ensure!(g == w, "skip({}) over {:#x}: {:?} instead of {:?}", k, ba.as_raw(), g, w);
+        let (g, w): (Vec<u8>, Vec<u8>) = (ba.into_iter().take(k).map(ix).collect(), want.iter().copied().take(k).collect());
+        ensure!(g == w, "take({}) over {:#x}", k, ba.as_raw());
+        if k > 0 {
+            let (g, w): (Vec<u8>, Vec<u8>) = (ba.into_iter().step_by(k).map(ix).collect(), want.iter().copied().step_by(k).collect());
+            ensure!(g == w, "step_by({}) over {:#x}: {:?} instead of {:?}", k, ba.as_raw(), g, w);
+        }
+        // next() keeps returning None after the end
+        let mut it = ba.into_iter();
+        let _ = it.nth(k);
+        let _ = it.by_ref().count();
+        ensure!(it.next().is_none() && it.next().is_none(), "iterator over {:#x} yields elements after its end", ba.as_raw());
+    }
     Ok(())
 }
 
